@@ -182,4 +182,5 @@ def run(ctx):
             rr.r_loop(ctx, tv)
             rr.r_scoring(ctx, tv)
     from props import C01
-    C01.rules(ctx)  # "still satisfy C01": its structural clauses are re-checked here
+    import premises
+    premises.forest(ctx)
